@@ -188,7 +188,7 @@ Fixpoint optimize (case_blind : bool) (o : op) : op :=
       end
   | ORepeat o' mn mx g =>
       let c := optimize case_blind o' in
-      ORepeat c (if (mn =? 0) && (mes c =? zls_any) then 1 else mn) mx g
+      ORepeat c (if (mn =? 0) && g && (mes c =? zls_any) then 1 else mn) mx g
   | OGFixed o' mn mx len =>
       if mx =? 0 then ONothing
       else if opt_N_eqb (match_length o') (Some 0) then o'
